@@ -173,6 +173,67 @@ theorem pollComplete_new_prefix {S P R C : Type} (ops : Ops S P R C) (s : S) (e 
       e true (some (ops.start s ans).2.1))
   exact ⟨rest, by simpa [Step.emit, Step.evs] using h⟩
 
+/-! ## `write_all`: one `await` point -/
+
+/-- a fresh write on buffer `st` that the host answers at once with COMPLETED|k (`1 ≤ k ≤ remaining`):
+the operation completes in the same poll with `Complete(k)` and the buffer advanced by exactly `k` -/
+theorem pollComplete_write_immediate (st : WSt) (e : Env) (k : Nat) (hd : st.wr.done = false)
+    (hk : k ≤ st.buf.remaining) (hk2 : k < 268435455) (hc : st.buf.cursor ≤ st.buf.items.length) :
+    pollComplete streamWriteOps (WOp.new st) e (Host.packCode Host.COMPLETED k) =
+      .ok (.ready (sresOf 0 k, { buf := { st.buf with cursor := st.buf.cursor + k }, wr := st.wr }),
+           ⟨.done, none, false, none⟩, e)
+        ([.ch .swrite [st.wr.handle, min st.buf.remaining Limits.streamMaxLength, Host.packCode Host.COMPLETED k]] ++
+         (if st.buf.kind = .lists then (st.buf.window.take k).map (evDli st.buf.c) else [])) := by
+  have hu := streamWrite_update_spec st 0 k (by omega) hk hk2 hc
+  simp only [Host.COMPLETED] at hu ⊢
+  simp [pollComplete, pollCompleteWithCode, WOp.new, streamWriteOps, hd, Step.bind, Step.emit, hu]
+  cases hw : st.wr with
+  | mk h dn => rw [hw] at hd; simp at hd; simp [hd]
+
+/-- **`write_all` terminates when the host makes progress**: one `await` point of `write_all` /
+`write_one` whose write the host answers with COMPLETED|k, `1 ≤ k ≤ remaining`.  Either everything has
+been taken and the function ends (no longer `running`, nothing handed back), or it continues with a
+`write_buf` of the SAME buffer whose `remaining` is smaller by exactly `k` — a strictly decreasing
+measure, so at most `remaining` such steps happen in a row; the untransferred tail is never dropped. -/
+theorem write_all_progress (g : GChan) (e : Env) (one first : Bool) (st : WSt) (k : Nat) (hd : st.wr.done = false)
+    (hk1 : 1 ≤ k) (hk : k ≤ st.buf.remaining) (hk2 : k < 268435455) (hc : st.buf.cursor ≤ st.buf.items.length) :
+    ∃ g' evs, g.pollAll e one first (WOp.new st) (Host.packCode Host.COMPLETED k) = .ok (g', e) evs ∧
+      (if st.buf.remaining = k then g'.running = false ∧ g'.act = .idle
+       else g'.running = true ∧
+         g'.act = .sall one (.awaiting false (WOp.new { buf := { st.buf with cursor := st.buf.cursor + k }, wr := st.wr })) ∧
+         ({ st.buf with cursor := st.buf.cursor + k } : AbiBuffer).remaining + k = st.buf.remaining) := by
+  have hp := pollComplete_write_immediate st e k hd hk hk2 hc
+  have hk0 : k ≠ 0 := by omega
+  by_cases hr : st.buf.remaining = k
+  · have hrem : ({ st.buf with cursor := st.buf.cursor + k } : AbiBuffer).remaining = 0 := by
+      simp only [AbiBuffer.remaining] at hr ⊢; omega
+    simp only [GChan.pollAll, hp, Step.bind, taskDropEvs, Step.emit, GChan.allAfter, sresOf, hk0, false_and, if_false]
+    simp only [Bool.and_eq_true, Bool.not_eq_true', beq_iff_eq]
+    have : (if first = false ∧ SRes.complete k = SRes.cancelled then SRes.complete 0 else SRes.complete k) = SRes.complete k := by
+      simp
+    simp only [this, hrem, beq_self_eq_true, if_true, GChan.allFinish, hr]
+    simp [bne, AbiBuffer.intoVec, AbiBuffer.takeVec, AbiBuffer.dropEvs, Step.bind, hrem]
+  · have hrem : ({ st.buf with cursor := st.buf.cursor + k } : AbiBuffer).remaining ≠ 0 := by
+      simp only [AbiBuffer.remaining] at hr hk ⊢; omega
+    have hrem2 : ({ st.buf with cursor := st.buf.cursor + k } : AbiBuffer).remaining + k = st.buf.remaining := by
+      simp only [AbiBuffer.remaining] at hk ⊢; omega
+    simp only [GChan.pollAll, hp, Step.bind, taskDropEvs, Step.emit, GChan.allAfter, sresOf, hk0, false_and, if_false]
+    have : (if (!first && SRes.complete k == SRes.cancelled) = true then SRes.complete 0 else SRes.complete k) = SRes.complete k := by
+      simp
+    simp [this, hrem, hr, hrem2]
+
+/-- **The untransferred tail is returned, not dropped**: when `write_all` ends — everything was taken,
+or the peer dropped — the vector it hands back is exactly the window of the buffer at that point (the
+values the host never took, in order), each lifted back exactly once if it had been lowered. -/
+theorem write_all_returns_untransferred (g : GChan) (status : SRes) (st : WSt)
+    (h : st.buf.remaining = 0 ∨ status = .dropped) :
+    g.allFinish false status st =
+      .ok { g with act := .idle, running := false, sw := g.sw.map fun _ => st.wr }
+        (st.buf.takeVec.2.2 ++ [evP g.c .ready, .ch .wares (g.c :: st.buf.window)] ++ valDrops g.c g.kind st.buf.window) := by
+  have hne : (st.buf.remaining != 0 && status != SRes.dropped) = false := by
+    rcases h with h | h <;> simp [h]
+  simp [GChan.allFinish, hne, AbiBuffer.intoVec_spec, valDrops]
+
 /-! ## Legality of labels and reachability -/
 
 /-- the size the next poll offers to the host if it starts a copy (`none` = it does not call the
